@@ -110,6 +110,8 @@ fn corpus() -> Vec<(String, T)> {
     add("add", op(16, vec![q(n(255)), q(n(1)), q(n(70000))]));
     add("sub", op(17, vec![q(n(5)), q(n(7))]));
     add("mul", op(18, vec![q(n(300)), q(n(70000))]));
+    add("mul-padded", op(18, vec![q(a(&[0x00, 0x80])), q(n(2))]));
+    add("mul-padded-zeros", op(18, vec![q(a(&[0, 0, 0, 7])), q(a(&[0x7f, 0xff]))]));
     add("div", op(19, vec![q(n(1000)), q(n(7))]));
     add("divmod", op(20, vec![q(n(1000)), q(n(7))]));
     add("mod", op(61, vec![q(n(1000)), q(n(7))]));
@@ -143,6 +145,14 @@ fn corpus() -> Vec<(String, T)> {
         }
         c.push((nm.to_string(), op(36, vec![q(n(1000)), q(n(ext)), q(inner.clone()), q(nil())])));
     }
+    // malformed / unusual shapes (totality)
+    c.push(("sf-one-arg-zero".into(), op(36, vec![q(a(&[0x00]))])));
+    c.push(("sf-no-args".into(), op(36, vec![])));
+    c.push(("op-is-list-of-list".into(), list(vec![list(vec![list(vec![n(1)])])])));
+    c.push(("op-is-list-of-list-arg".into(), list(vec![list(vec![list(vec![n(1)])]), n(2)])));
+    c.push(("apply-no-args".into(), op(2, vec![])));
+    c.push(("path-into-atom".into(), n(7)));
+    c.push(("improper-args".into(), cons(n(16), n(5))));
     c.push(("sf-noncanon-ext".into(), op(36, vec![q(n(1000)), q(a(&[0x00])), q(nil()), nil()])));
     c.push(("sf-in-eq-gc".into(), op(9, vec![op(36, vec![q(n(1000)), q(n(0)), q(op(4, vec![op(14, vec![q(a(b"aaaaaaaa")), q(a(b"bbbbbbbb"))]), q(nil())])), q(nil())]), q(nil())])));
     c
@@ -360,10 +370,21 @@ pub fn search(pid: &str) -> String {
                     }
                 }
                 "C11" => {
-                    let x = run(&t0, base | ClvmFlags::NEW_COST_MODEL, 0);
-                    let o0 = run(&t0, base, 0);
-                    if o0.ok && x.ok && x.result != o0.result {
-                        return found(pid, &name, &t0, format!("flags {:#x}: result {} vs {} under NEW_COST_MODEL", base.bits(), o0.result, x.result));
+                    for extra in [ClvmFlags::empty(), ClvmFlags::DISABLE_OP, ClvmFlags::LIMITS, ClvmFlags::ENABLE_GC] {
+                        let x = run(&t0, base | extra | ClvmFlags::NEW_COST_MODEL, 0);
+                        let o0 = run(&t0, base | extra, 0);
+                        if o0.ok && x.ok && x.result != o0.result {
+                            return found(pid, &name, &t0, format!("flags {:#x}: result {} vs {} under NEW_COST_MODEL", (base | extra).bits(), o0.result, x.result));
+                        }
+                    }
+                }
+                "C25" => {
+                    // totality: no panic and no InternalError, under every flag set of the grid
+                    for extra in [ClvmFlags::empty(), ClvmFlags::CANONICAL_INTS, clvmr::chia_dialect::MEMPOOL_MODE, ClvmFlags::ENABLE_GC, ClvmFlags::NO_UNKNOWN_OPS] {
+                        let x = run(&t0, base | extra, 0);
+                        if x.err == "PANIC" || x.err.to_lowercase().contains("internal error") {
+                            return found(pid, &name, &t0, format!("flags {:#x}: {}", (base | extra).bits(), x.err));
+                        }
                     }
                 }
                 "C02" => {
